@@ -20,7 +20,7 @@ from mc.common import reset_frame_state, replay_via
 ID = 'C04'
 LEVEL = 'exploration'
 PRELOAD = ['frame.geometry.geometry', 'frame.netlist.netlist', 'frame.die.die', 'frame.allocation.allocation', 'ruamel.yaml', 'mc.common', 'mc.netdocs']
-RULE = ("documents = module tuples over 40 module variants x net sets; quick: all 1- and 2-module tuples x all single nets + two-net sets, "
+RULE = ("documents = module tuples over 40 module variants x net sets; also after create_squares() / assign_rectangles() on the loaded netlist; quick: all 1- and 2-module tuples x all single nets + two-net sets, "
         "3-module tuples over a 9-variant sub-alphabet x reduced nets; thorough: 3-module tuples over 14 variants. "
         "Non-trivial = documents with at least one attribute beyond a bare scalar-area soft module (i.e. every document except M0={area:4}); "
         "distinct by construction.")
